@@ -372,6 +372,10 @@ def check(chk):
     chk.ob("DOM-38", "two audits count coins (by 1) and two sum their value", sorted(kinds_.values()) == ["1", "1", "value", "value"], au_.where(), detail=str(kinds_),
            construct=au_.ident, text="audit kinds")
 
+    # credits expire while the machine is off only if the deadline is on disk: shared with C15
+    from sa.rules.c15 import expiry_restart_is_written
+    expiry_restart_is_written(chk, repo, "UNIT-7")
+
     # the pricing table is rebuilt from scratch every time it is calculated (the mode is restarted after service): what the loop carries
     # from tier to tier starts at zero, the table starts empty
     pt_ = cr.methods["_calculate_pricing_tiers"]
@@ -539,6 +543,7 @@ def battery():
         M("tier wrap-around carried over from the previous table", CR, "        self.pricing_tiers_wrap_around = 0\n        pricing_tiers = []", "        pricing_tiers = []", "TIER-1"),
         M("coin handlers registered a second time (F20 reverted)", CR, "        self._disable_credit_handlers()\n        self._enable_credit_handlers()", "        self._enable_credit_handlers()", "DOM-38"),
         M("per-slot earnings overwritten", CR, "            if key_val not in self.earnings:\n                self.earnings[key_val] = value\n            else:\n                self.earnings[key_val] += value", "            self.earnings[key_val] = value", "DOM-38"),
+        M("unchanged expiring variable not re-written", "mpf/core/machine_vars.py", "        elif self.machine_vars[name][\"expire_secs\"]:\n            self._write_machine_var_to_disk(name)\n", "", "UNIT-7"),
     ]
 
 
